@@ -43,6 +43,7 @@ func runC04(c *Ctx) {
 	checkCacheMergeFold(c, "R2.6")
 	// what was written is read back: read refuses nothing but the documented contradictions, merge commits are exempt from the hop limit (shared with C03)
 	checkReadGuards(c)
+	checkMetadataNotAliased(c, "R4.12")
 	// "it passes validation there": the keys a pack is verified with are those in force at its own edit time (shared with C08)
 	runC08(c)
 }
